@@ -313,7 +313,14 @@ func seqEq(ea zed.Type, ba zcode.Bytes, eb zed.Type, bb zcode.Bytes) bool {
 }
 
 // Describe renders a value for reports without relying on round trips.
-func Describe(v zed.Value) string {
+func Describe(v zed.Value) (s string) {
+	defer func() {
+		// a value whose bytes do not fit its type (which is what a failed round trip
+		// can produce) cannot be formatted
+		if p := recover(); p != nil {
+			s = fmt.Sprintf("(bytes do not fit the type) :: %s [% x]", zson.FormatType(v.Type()), []byte(v.Bytes()))
+		}
+	}()
 	return fmt.Sprintf("%s :: %s [% x]", zson.FormatValue(v), zson.FormatType(v.Type()), []byte(v.Bytes()))
 }
 
